@@ -63,6 +63,9 @@ def rand_name(rng, used):
     while True:
         n = int(rng.integers(1, 12))
         s = "".join(alpha[int(i)] for i in rng.integers(0, len(alpha), size=n))
+        if rng.random() < 0.1:
+            # labels made of digits only (years, station numbers with leading zeros)
+            s = ["2019", "2020", "007", "0", "410730", "12"][int(rng.integers(0, 6))]
         s = s.strip()
         if not s or s in used:
             continue
@@ -311,7 +314,9 @@ def run_case(ctx, case):
                 ctx.check("rt.archive-members", okm, "roundtrip|archive-other-member",
                           case, lambda: {"member": oname})
         # ------------------------------------------------ round-trip predicate
-        names = [str(c) for c in got.columns]
+        # names come back as the same *strings* (a label "2020" is not the number 2020)
+        names = [c if isinstance(c, str) else repr(c) + ":" + type(c).__name__
+                 for c in got.columns]
         ctx.check("rt.columns", names == [c["name"] for c in cols],
                   "roundtrip|column-names", case,
                   lambda: {"read": names, "written": [c["name"] for c in cols]})
